@@ -10,6 +10,8 @@ use num::{BigInt, BigRational};
 pub struct C03;
 
 const MAGS: [&str; 5] = ["1", "0.75", "1e-3", "12345.678", "-2"];
+/// thorough tier only
+const MAGS_MORE: [&str; 7] = ["0", "1e30", "1e-30", "-0.001", "123456789.987654321", "3", "-7.5e5"];
 
 fn first_name(u: &tables::UnitDef) -> Option<&'static str> {
     u.names.iter().find(|n| tables::typeable(n)).copied()
@@ -56,9 +58,15 @@ impl Prop for C03 {
                     for x in MAGS {
                         sink(Case::with("direct", format!("{x} {a} to {b}"), serde_json::json!({"x": x, "a": a, "b": b})));
                     }
+                    if tier == Tier::Thorough {
+                        for x in MAGS_MORE {
+                            sink(Case::with("direct", format!("{x} {a} to {b}"), serde_json::json!({"x": x, "a": a, "b": b})));
+                        }
+                    }
                     sink(Case::with("roundtrip", format!("(7.5 {a} to {b}) to {a}"), serde_json::json!({"x": "7.5", "a": a, "b": b})));
                     sink(Case::with("scaling", format!("3 {a} to {b}"), serde_json::json!({"a": a, "b": b})));
-                    for n in [-3i64, -2, -1, 2, 3] {
+                    let pows: &[i64] = if tier == Tier::Thorough { &[-5, -4, -3, -2, -1, 2, 3, 4, 5] } else { &[-3, -2, -1, 2, 3] };
+                    for n in pows.iter().copied() {
                         sink(Case::with("power", format!("5 {a}^{n} to {b}^{n}"), serde_json::json!({"x": "5", "a": format!("{a}^{n}"), "b": format!("{b}^{n}")})));
                     }
                 }
@@ -98,7 +106,16 @@ impl Prop for C03 {
         // as target, and prefix-to-prefix (an SI prefix is exactly its power of ten *under powers too*)
         let si_core = ["m", "s", "g", "l", "N", "J", "W", "A", "V", "B"];
         let syms: Vec<&str> = PREFIXES.iter().map(|p| p.0).collect();
-        for u in si_core.iter().take(tier.pick(6, 10)) {
+        // thorough: every non-offset unit name of the table, not only the SI core
+        let all_units: Vec<&'static str> = UNITS.iter().filter(|u| u.affine == Affine::None).filter_map(first_name).collect();
+        let pp_units: Vec<&str> = if tier == Tier::Thorough {
+            let mut v: Vec<&str> = si_core.to_vec();
+            v.extend(all_units.iter().copied().filter(|u| !si_core.contains(u)));
+            v
+        } else {
+            si_core.iter().take(6).copied().collect()
+        };
+        for u in pp_units.iter() {
             for p in &syms {
                 let w = format!("{p}{u}");
                 if !tables::typeable(&w) || !single_reading(&w) || tables::find_by_name(&w).is_some() {
@@ -108,7 +125,7 @@ impl Prop for C03 {
                     let (wa, ua) = (format!("{w}^{n}"), format!("{u}^{n}"));
                     sink(Case::with("pfxpow-src", format!("3 {wa} to {ua}"), serde_json::json!({"x": "3", "a": wa, "b": ua, "w": w})));
                     sink(Case::with("pfxpow-tgt", format!("3 {ua} to {wa}"), serde_json::json!({"x": "3", "a": ua, "b": wa, "w": w})));
-                    if *u == "m" || *u == "s" || tier == Tier::Thorough {
+                    if *u == "m" || *u == "s" || (tier == Tier::Thorough && si_core.contains(u)) {
                         for q in &syms {
                             let w2 = format!("{q}{u}");
                             if q == p || !tables::typeable(&w2) || !single_reading(&w2) || tables::find_by_name(&w2).is_some() {
